@@ -163,6 +163,25 @@ EventsAlgebra(w) ==
       [] OTHER -> {}
 
 ----------------------------------------------------------------------------
+(* Family "set2" (C02): objects 1 and 2 are Sets whose collators are chosen  *)
+(* independently (natural, reversed, coarse), both grown by AddValue; every  *)
+(* bulk operation of one taking the other as its operand sequence, in both   *)
+(* directions and in every (content, content) combination - an operand that  *)
+(* is ordered and duplicate-free under ANOTHER ordering is exactly what a    *)
+(* "the operand is already a set" shortcut gets wrong.                       *)
+
+EventsSet2(w) ==
+    CASE Len(w) = 0 -> {E("Set", "MakeWithCollator", 0, <<c>>, "V") : c \in {"nat", "rev", "coarse"}}
+      [] Len(w) = 1 -> {E("Set", "AddValue", 1, <<t>>, "") : t \in Toks} \cup
+                       {E("Set", "MakeWithCollator", 0, <<c>>, "V") : c \in {"nat", "rev", "coarse"}}
+      [] Len(w) = 2 -> {E("Set", "AddValue", 2, <<t>>, "") : t \in Toks} \cup
+                       {E("Set", "RemoveAll", 2, <<>>, "")} \cup
+                       {E("Set", m, a, <<3 - a>>, "") : m \in {"AddValues", "RemoveValues", "ContainsAny", "ContainsAll"},
+                                                        a \in {1, 2}} \cup
+                       {E("Set", "MakeFromSequence", 0, <<a>>, "V") : a \in {1, 2}}
+      [] OTHER -> {}
+
+----------------------------------------------------------------------------
 (* Family "stack" (C13).                                                    *)
 
 EventsStack(w) ==
@@ -437,6 +456,7 @@ EvSets(w) ==
       [] Family = "iter"     -> << EventsIter(w) >>
       [] Family = "set"      -> << EventsSet(w) >>
       [] Family = "algebra"  -> << EventsAlgebra(w) >>
+      [] Family = "set2"     -> << EventsSet2(w) >>
       [] Family = "stack"    -> << EventsStack(w) >>
       [] Family \in {"catalog", "catalogfn"} -> << EventsAssoc("Catalog", w), Costly(AssocMutOther("Catalog", w)) >>
       [] Family = "concat"   -> << EventsConcat(w), Costly(ConcatMut(w)) >>
